@@ -81,12 +81,18 @@ def _param_equal(recorded: Any, actual: Any, approx: bool) -> bool:
     if has_data(actual):
         if isinstance(actual, dict) and set(actual) <= {"t", "v"}:
             want = M.render(actual)
+            if actual["t"] == "NoDataType":
+                want = "NoDataType(None)"  # repr(), as recorded; str() (used by templates) prints "NoDataType"
             return isinstance(recorded, str) and (recorded == want or (recorded.endswith("…") and want.startswith(recorded[:-1])) or
                                                   (approx and observe._str_close(recorded, want)))
         return isinstance(recorded, str)  # a container holding data objects is not JSON serialisable: recorded as some repr
     if approx and isinstance(recorded, str) and not isinstance(actual, str):
         # numpy scalars (np.float64 / np.bool_) inside the value are not JSON serialisable: the value is recorded as its repr
         norm = recorded.replace("np.True_", "True").replace("np.False_", "False")
+        if norm.endswith("…"):  # safe_repr truncates at 200 characters: compare the non-numeric skeleton of the common prefix
+            a = observe._NUM.sub("#", observe._np_norm(norm[:-1]))[:80]
+            b = observe._NUM.sub("#", observe._np_norm(repr(actual)))[:80]
+            return a == b
         return observe._str_close(norm, repr(actual))
     return observe.equal(observe.norm_value(recorded), actual, approx)
 
@@ -233,6 +239,10 @@ def _judge(case, run_case, detail, m, ref, r1, r2, t0, t1, col) -> None:
             same_data = repr(e["in"]) == repr(e["out"])
             if same_data and (sm.get("input_data") or {}).get("sha256") != (sm.get("output_data") or {}).get("sha256"):
                 bad("equal_data_different_digest", {"node": nodekind(run_case["nodes"][i])})
+            # a digest is a function of content: content that differs (not even ==) must not keep the input's digest
+            if not same_data and not observe.equal(e["in"], e["out"], True) and (sm.get("input_data") or {}).get("sha256") is not None and \
+                    (sm.get("input_data") or {}).get("sha256") == (sm.get("output_data") or {}).get("sha256"):
+                bad("different_data_same_digest", {"node": nodekind(run_case["nodes"][i])}, sm.get("output_data"), {"in": e["in"], "out": e["out"]})
             if repr(e["pre"]) == repr(e["post"]) and sorted(e["pre"]) == sorted(e["post"]) and \
                     (sm.get("pre_context") or {}).get("sha256") != (sm.get("post_context") or {}).get("sha256"):
                 bad("equal_context_different_digest", {"node": nodekind(run_case["nodes"][i])})
